@@ -44,7 +44,7 @@ SPEC = {
     ("AsyncWrite", "poll_flush"): set(),
     ("AsyncWrite", "poll_shutdown"): set(),
     ("AsyncWrite", "is_write_vectored"): set(),
-    ("AsyncRead", "poll_read"): {"inc@ready:filled-delta"},
+    ("AsyncRead", "poll_read"): [{"inc@ready:filled-delta"}, {"inc@ok:filled-delta"}],
     ("AsyncSeek", "start_seek"): set(),
     ("AsyncSeek", "poll_complete"): {"set_position@ok:inner"},
     ("AsyncBufRead", "poll_fill_buf"): set(),
@@ -359,8 +359,12 @@ def rule_passthrough(ctx, crate, m, inner, rule="R-WRAP-PASSTHROUGH"):
 
 def check_identity_closure(ctx, crate, m, cb, rule, key, depth):
     cfg = crate.config
-    sl = cb.slice([0], through_calls=True)
     nested = closures_built(crate, cb)
+    if cb.locals[0]["ty"] == "()":
+        for (cb2, k2, a2) in (nested if depth < 3 else []):
+            check_identity_closure(ctx, crate, m, cb2, rule, key, depth + 1)
+        return
+    sl = cb.slice([0], through_calls=True)
     ok = (2 in sl.params()) and not [a for a in sl.atoms if a[0] == "binop"] and not [x for x in sl.calls if not x.matches(*VALUE_PRESERVING) and not x.matches(r"rayon::.*|.*Progress.*")]
     if cb.calls(r"std::thread::JoinHandle::<T>::join") or "rayon" in cb.file:
         return
@@ -379,6 +383,11 @@ def rule_effect(ctx, crate, m, tr, name, effs, rule="R-WRAP-EFFECT"):
         ctx.bad(rule, key + ":unlisted", m.name, K.fn_loc(m), "wrapper method %s has no row in the effect table (new adaptor method: its counting is unchecked)" % key, cfg)
         return
     have = sigs(effs)
+    alts = want if isinstance(want, list) else [want]
+    want = alts[0]
+    for a in alts:
+        if have == a:
+            want = a
     # exactly-once: no effect inside a loop, no duplicates
     dup = len(effs) != len(have) or any(e.body.in_loop(e.bb) for k, l, a, e in effs)
     ok = have == want and not dup
